@@ -6,9 +6,18 @@ import (
 	"testing"
 	"time"
 
+	"github.com/vulcand/oxy/v2/cbreaker"
+	"github.com/vulcand/oxy/v2/internal/holsterv4/clock"
 	"github.com/vulcand/oxy/v2/verifharness/cbh"
 	"github.com/vulcand/oxy/v2/verifharness/vstat"
+	"net/http"
+	"net/http/httptest"
 	"pgregory.net/rapid"
+	"runtime"
+	"strconv"
+	"strings"
+	"sync"
+	"sync/atomic"
 )
 
 func TestMain(m *testing.M) {
@@ -205,7 +214,7 @@ func runCase(t *rapid.T, e node) {
 	}
 	n := rapid.IntRange(3, 70).Draw(t, "nsteps")
 	for i := 0; i < n; i++ {
-		switch rapid.IntRange(0, 11).Draw(t, "op") {
+		switch rapid.IntRange(0, 12).Draw(t, "op") {
 		case 0, 1, 2:
 			start()
 		case 3, 4, 5:
@@ -241,6 +250,14 @@ func runCase(t *rapid.T, e node) {
 					finish(len(d.InFlight)-1, rapid.SampledFrom([]int{200, 200, 201, 404}).Draw(t, "longStatus"))
 				}
 				adv(10000 + rapid.Int64Range(0, 1500).Draw(t, "longGap"))
+			}
+		case 12: // an exchange that lasts hours (a long-lived stream, a hung backend that finally answers)
+			if prev == "standby" {
+				start()
+				adv(rapid.SampledFrom([]int64{72 * 60000, 2 * 3600000, 26 * 3600000}).Draw(t, "hours"))
+				if len(d.InFlight) > 0 {
+					finish(len(d.InFlight)-1, rapid.SampledFrom(statuses).Draw(t, "lateStatus"))
+				}
 			}
 		case 8:
 			adv(ms(P) + rapid.Int64Range(-1, 2).Draw(t, "aroundP"))
@@ -315,4 +332,124 @@ func TestC18_Regression(t *testing.T) {
 	if st := d.State(); st != "tripped" {
 		t.Fatalf("five 2xx responses (each preceded by 103 Early Hints, status left implicit) and one 500: the condition holds (1/5 >= 0.2, 5/6 > 0.5) but the breaker is %s\n%s", st, d.History())
 	}
+}
+
+// yieldLogger widens every window between two critical sections of the breaker: while armed,
+// whoever logs yields the processor a bounded number of times (no wall-clock waiting).
+type yieldLogger struct{ armed atomic.Bool }
+
+func (l *yieldLogger) pause() {
+	if l.armed.Load() {
+		clock.Advance(time.Microsecond) // time does not stand still while requests overlap
+		for i := 0; i < 30; i++ {
+			runtime.Gosched()
+		}
+	}
+}
+func (l *yieldLogger) Debug(string, ...interface{}) { l.pause() }
+func (l *yieldLogger) Info(string, ...interface{})  { l.pause() }
+func (l *yieldLogger) Warn(string, ...interface{})  { l.pause() }
+func (l *yieldLogger) Error(string, ...interface{}) { l.pause() }
+
+type countEffect struct{ n atomic.Int64 }
+
+func (e *countEffect) Exec() error { e.n.Add(1); return nil }
+
+// TestC18_ConcurrentTransitions: bursts of simultaneous requests (real goroutines, spin barrier)
+// arrive exactly where the breaker changes state - the failing burst that trips it and the burst
+// just past the recovery period that returns it to standby. However many requests witness a
+// transition, its side effect runs once: after every cycle on-tripped and on-standby have each
+// run exactly as many times as there were cycles.
+func TestC18_ConcurrentTransitions(t *testing.T) {
+	rapid.Check(t, func(t *rapid.T) {
+		F := rapid.SampledFrom([]time.Duration{100 * time.Millisecond, time.Second}).Draw(t, "fallback")
+		R := rapid.SampledFrom([]time.Duration{100 * time.Millisecond, time.Second}).Draw(t, "recovery")
+		G := rapid.IntRange(2, 16).Draw(t, "burst")
+		cycles := rapid.IntRange(3, 20).Draw(t, "cycles")
+		clock.Freeze(cbh.Epoch)
+		defer clock.Unfreeze()
+		lg := &yieldLogger{}
+		onTripped, onStandby := &countEffect{}, &countEffect{}
+		handler := http.HandlerFunc(func(w http.ResponseWriter, r *http.Request) {
+			w.Header().Set("X-Handler", "1")
+			st, _ := strconv.Atoi(r.Header.Get("X-Want"))
+			w.WriteHeader(st)
+		})
+		cb, err := cbreaker.New(handler, "NetworkErrorRatio() > 0.5", cbreaker.FallbackDuration(F), cbreaker.RecoveryDuration(R), cbreaker.CheckPeriod(time.Millisecond),
+			cbreaker.Logger(lg), cbreaker.OnTripped(onTripped), cbreaker.OnStandby(onStandby))
+		if err != nil {
+			t.Fatalf("%v", err)
+		}
+		do := func(status int) {
+			req := httptest.NewRequest("GET", "http://x/", nil)
+			req.Header.Set("X-Want", strconv.Itoa(status))
+			cb.ServeHTTP(httptest.NewRecorder(), req)
+		}
+		burst := func(what string, status int) {
+			var wg sync.WaitGroup
+			var ready atomic.Int64
+			lg.armed.Store(true)
+			done := make(chan struct{})
+			go func() {
+				defer close(done)
+				for g := 0; g < G; g++ {
+					wg.Add(1)
+					go func() {
+						defer wg.Done()
+						ready.Add(1)
+						for ready.Load() < int64(G) {
+						}
+						do(status)
+					}()
+				}
+				wg.Wait()
+			}()
+			select {
+			case <-done:
+			case <-time.After(20 * time.Second):
+				t.Fatalf("%s: %d simultaneous requests were not all answered within 20 s", what, G)
+			}
+			lg.armed.Store(false)
+		}
+		state := func() string {
+			s := cb.String()
+			s = s[strings.Index(s, "state=")+6:]
+			if j := strings.IndexAny(s, ",)"); j >= 0 {
+				s = s[:j]
+			}
+			return s
+		}
+		settle := func(e *countEffect, want int64) int64 {
+			deadline := time.Now().Add(5 * time.Second)
+			for e.n.Load() < want && time.Now().Before(deadline) {
+				runtime.Gosched()
+			}
+			time.Sleep(300 * time.Microsecond) // a surplus run would have been started by now
+			return e.n.Load()
+		}
+		for c := 1; c <= cycles; c++ {
+			// trip: a first failure starts the check period, then a burst of failures completes past it
+			do(502)
+			clock.Advance(2*time.Millisecond + time.Microsecond)
+			burst(fmt.Sprintf("cycle %d, failing burst", c), 502)
+			if st := state(); st != "tripped" {
+				t.Fatalf("cycle %d: %d failing requests and the breaker is %s", c, G+1, st)
+			}
+			if got := settle(onTripped, int64(c)); got != int64(c) {
+				t.Fatalf("cycle %d: the breaker has tripped %d times, the on-tripped side effect ran %d times (a burst of %d failing requests completed together)", c, c, got, G)
+			}
+			clock.Advance(F + time.Millisecond + time.Microsecond)
+			do(200) // begins the recovery
+			clock.Advance(R + time.Millisecond + time.Microsecond)
+			burst(fmt.Sprintf("cycle %d, burst just past the recovery period", c), 200)
+			if st := state(); st != "standby" {
+				t.Fatalf("cycle %d: after the recovery period and %d requests the breaker is %s", c, G, st)
+			}
+			if got := settle(onStandby, int64(c)); got != int64(c) {
+				t.Fatalf("cycle %d: the breaker has returned to standby %d times, the on-standby side effect ran %d times (%d requests arrived together just past the recovery period)", c, c, got, G)
+			}
+			clock.Advance(11*time.Second + time.Microsecond) // the failures of this cycle leave the window
+		}
+		vstat.Case(fmt.Sprintf("conctrans|%v|%v|%d|%d", F, R, G, cycles), true, []string{"simultaneous-requests-at-transitions"}, map[string]any{"fallback": F.String(), "recovery": R.String(), "burst": G, "cycles": cycles})
+	})
 }
